@@ -16,10 +16,11 @@ from vlib import BUILD, Infra, build, log, next_replay_path, open_findings, run,
 import check_prog
 
 ALL = ("CtxPrompt NoStrandedCall NoLockWedge NoResidue FifoPerConn NoDoubleStart OneUnreleased AtMostOneResponse "
-       "ConfirmOnlyOneWay CloseTerminates")
-W0 = "CtxPrompt NoLockWedge FifoPerConn NoDoubleStart OneUnreleased AtMostOneResponse ConfirmOnlyOneWay CloseTerminates"
+       "ConfirmOnlyOneWay CloseTerminates NoPanic")
+W0 = ("CtxPrompt NoLockWedge FifoPerConn NoDoubleStart OneUnreleased AtMostOneResponse ConfirmOnlyOneWay CloseTerminates "
+      "NoPanic")
 
-# name: (reqs, k1, k2, k3, sendbuf, window, close, cancel, maxepoch, invariants)
+# name: (reqs, k1, k2, k3, sendbuf, window, close, cancel, maxepoch, invariants[, maxcrash[, foreign]])
 CFG = {
     "two-two-b0-e2": ("{1, 2}", "two", "two", "two", 0, 1, "TRUE", "{1, 2}", 2, ALL),
     "two-two-b0-noclose": ("{1, 2}", "two", "two", "two", 0, 1, "FALSE", "{1, 2}", 3, ALL),
@@ -38,16 +39,19 @@ CFG = {
     # to a cancelled stream is stranded when the sender re-creates the stream (SenderReconnectStrandsPending)
     "three-two-nocrash": ("{1, 2, 3}", "two", "two", "two", 0, 1, "FALSE", "{1}", 2, ALL, 0),
     "three-b1-close": ("{1, 2, 3}", "two", "nsw", "two", 1, 1, "TRUE", "{}", 2, ALL),
+    # a streaming call whose reply channel is filled by other nodes of its configuration while it is still
+    # handing its request to this node (EnqueueBlocksOnOwnReplyChannel), with Close
+    "stream-foreign": ("{1, 2}", "stream", "two", "two", 0, 1, "TRUE", "{1}", 2, ALL, 1, "TRUE"),
 }
 DESIGN = {
-    "quick": {"C08": ["two-sw-w0", "two-two-b0-noclose"], "C09": ["two-two-b0-noclose", "stream-two-e2", "three-two-nocrash"],
+    "quick": {"C08": ["two-sw-w0", "two-two-b0-noclose"], "C09": ["two-two-b0-noclose", "stream-two-e2", "three-two-nocrash", "stream-foreign"],
               "C10": ["two-two-b0-noclose", "sw-nsw-b1"], "C12": ["two-two-b0-e2", "sw-nsw-b1"]},
     "thorough": {"C08": ["two-sw-w0", "two-two-w0", "nsw-two-w0", "two-two-b1", "three-b0"],
-                 "C09": ["two-two-b0", "stream-two-b0", "stream-stream-b1", "three-b0", "three-two-nocrash"],
+                 "C09": ["two-two-b0", "stream-two-b0", "stream-stream-b1", "three-b0", "three-two-nocrash", "stream-foreign"],
                  "C10": ["two-two-b0", "two-two-b1", "three-b0"],
                  "C12": ["two-two-b0", "two-two-b1", "stream-two-b0", "sw-nsw-b1", "three-b1-close"]},
 }
-OWN = {"C08": "CtxPrompt", "C09": "NoStrandedCall NoLockWedge", "C10": "NoStrandedCall", "C12": "CloseTerminates"}
+OWN = {"C08": "CtxPrompt", "C09": "NoStrandedCall NoLockWedge", "C10": "NoStrandedCall NoPanic", "C12": "CloseTerminates"}
 # free workloads: (runs, goroutines, calls per goroutine)
 M3 = {"quick": {"C09": (3, 6, 40), "C08": (2, 6, 30)}, "thorough": {"C09": (30, 8, 80), "C08": (15, 8, 60)}}
 # free workloads while servers crash and restart at random (runs, goroutines, calls)
@@ -60,10 +64,11 @@ RE_BAD = re.compile(r'<<"BAD", (\d+), (\d+), "(\w+)">>')
 def channel_cfg(name, devs):
     reqs, k1, k2, k3, sb, win, close, cancel, me, invs = CFG[name][:10]
     crash = CFG[name][10] if len(CFG[name]) > 10 else 1
+    foreign = CFG[name][11] if len(CFG[name]) > 11 else "FALSE"
     return ("SPECIFICATION Spec\nCONSTANTS\n  Reqs = %s\n  Kind <- KindOf\n  K1 = \"%s\"\n  K2 = \"%s\"\n  K3 = \"%s\"\n"
             "  SendBuf = %d\n  MaxEpoch = %d\n  MaxCrash = %d\n  CanCancel = %s\n  WithClose = %s\n  ChanCap = 1\n"
-            "  MaxItems = 2\n  Window = %d\n  Devs = %s\nINVARIANTS %s\nCHECK_DEADLOCK FALSE\n"
-            % (reqs, k1, k2, k3, sb, me, crash, cancel, close, win, tla_set(devs), invs))
+            "  MaxItems = 2\n  Window = %d\n  Foreign = %s\n  Devs = %s\nINVARIANTS %s\nCHECK_DEADLOCK FALSE\n"
+            % (reqs, k1, k2, k3, sb, me, crash, cancel, close, win, foreign, tla_set(devs), invs))
 
 
 def validate_life(trace, work):
